@@ -242,5 +242,27 @@ pub fn case(cx: &mut Case) -> CaseResult {
     if Weight::from(Cost::from(Weight::from_wu(weight))).to_wu() != weight {
         return Err(format!("Weight -> Cost -> Weight not identity at {}", weight));
     }
+    // Weight -> Cost is monotone on the whole domain of Weight (u64 weight units), including
+    // weights that no longer fit the 32-bit cost: w1 <= w2 => Cost(w1) <= Cost(w2)
+    {
+        let marks: [u64; 10] = [0, (u32::MAX / 1000) as u64, u32::MAX as u64 / 2, u32::MAX as u64, 1 << 32, (1 << 32) + 52, 1 << 33, 1 << 40, u64::MAX / 2, u64::MAX];
+        let base = marks[cx.src.below(marks.len())];
+        let w1 = match cx.src.below(3) {
+            0 => base,
+            1 => base.saturating_sub(cx.src.below(3000) as u64),
+            _ => base.saturating_add(cx.src.below(3000) as u64),
+        };
+        let delta = match cx.src.below(3) {
+            0 => cx.src.below(4) as u64,
+            1 => cx.src.below(100_000) as u64,
+            _ => cx.src.u64() >> cx.src.below(64),
+        };
+        let w2 = w1.saturating_add(delta);
+        let (c1, c2) = (cost_value(Cost::from(Weight::from_wu(w1))), cost_value(Cost::from(Weight::from_wu(w2))));
+        cx.label_if(w2 > u32::MAX as u64, "conversion of a weight above 2^32 - 1 checked");
+        if c1 > c2 {
+            return Err(format!("Cost::from(Weight) is not monotone: weight {} gives cost {}, the larger weight {} gives the smaller cost {}", w1, c1, w2, c2));
+        }
+    }
     Ok(())
 }
